@@ -74,7 +74,8 @@ def build(e, leaves):
     if tag == "outreduce":
         _, op, a, axis, keepdims = e
         fa = build(a, leaves)
-        return getattr(fa, OUTREDUCE_METHOD[op])(axis=axis, keepdims=keepdims)
+        # through the op, not the method: Lambda has a data attribute `var` that shadows Funsor.var on lazy terms
+        return getattr(ops, op)(fa, axis=axis, keepdims=keepdims)
     if tag == "reshape":
         return build(e[1], leaves).reshape(e[2])
     if tag == "einsum":
